@@ -55,6 +55,8 @@ def w_node(n):
     k = n[0]
     if k in ('text', 'var', 'call'):
         return [Atom(k), n[1]]
+    if k == 'select':
+        return [Atom('content')]
     if k == 'elem':
         return [Atom('elem'), n[1], w_nodes(n[2])]
     if k == 'if':
